@@ -214,8 +214,7 @@ theorem stats_consistent (a qa b qb : Bytes) (minOverlap idn idd : Nat) (r : PER
     · split <;> split <;> omega
     · split <;> split <;> omega
     · split <;> split <;> omega
-  · simp only [h, if_false, true_and, Bool.false_eq_true, false_implies, forall_const, and_true, iff_false,
-      not_false_eq_true, and_self]
+  · simp only [h, if_false, Bool.false_eq_true, false_implies, forall_const, and_self]
 
 /-- non-vacuity (tests on sample inputs): the consensus of `acgt`/`cgac` along `[-1,3,1,0]` (t/a at equal quality gives `w`) -/
 example : (consensus (fun _ => 0) [97, 99, 103, 116] [40, 40, 30, 40] [99, 103, 97, 99] [40, 40, 40, 40] [-1, 3, 1, 0]).map
